@@ -159,7 +159,13 @@ class YAMLPath:
                 segment = "\\" + segment
             self.original = segment
         else:
-            self.original += "{}{}".format(separator, segment)
+            path_now = self._original
+            if PathSeparators.infer_separator(path_now) is not separator:
+                # The separator was changed after this path was written;
+                # write the path as it is shown now lest the new separator
+                # be taken for a part of the last segment.
+                path_now = str(self)
+            self.original = "{}{}{}".format(path_now, separator, segment)
         return self
 
     def pop(self) -> PathSegment:
